@@ -40,14 +40,17 @@ def all_routes():
 
 def pairwise_routes(rng, n_extra=2):
     """a small set of routes in which every pair of option values occurs"""
-    base = [(True, False, True, True, False, False, False)]        # the default route
+    # the default route, and the default route with the spec given at compile time (each option on its own, so that an
+    # effect of one option is not hidden behind another option of the same route)
+    base = [(True, False, True, True, False, False, False), (True, False, True, True, True, False, False)]
     cand = all_routes()
     rng.shuffle(cand)
     need = {(i, a, j, b) for i in range(7) for j in range(i + 1, 7) for a in (0, 1) for b in (0, 1)}
     def pairs(r):
         return {(i, int(r[i]), j, int(r[j])) for i in range(7) for j in range(i + 1, 7)}
     chosen = list(base)
-    need -= pairs(base[0])
+    for b_ in base:
+        need -= pairs(b_)
     while need:
         best = max(cand, key=lambda r: len(pairs(r) & need))
         chosen.append(best)
